@@ -134,8 +134,7 @@ CLAIMS = {
         "text": "Decision points: Router.receive_frame and Firewall.receive_frame on real devices with warm ARP, the "
         "verdict of every ACL list a solver boolean: a denied frame causes no ARP learning, is not handed to the "
         "device's own software and is not forwarded; the firewall forwards from zone X to zone Y only if X's egress and "
-        "Y's ingress list both permit, consults X's list first, and forwards when both permit (all 64 verdict "
-        "combinations x 6 zone pairs). End to end: two copies of a generated host-router-server scenario in one path, "
+        "Y's ingress list both permit, consults X's list first, and forwards when both permit (all 64 verdict combinations x 6 zone pairs, with and without a default route on the firewall). End to end: two copies of a generated host-router-server scenario in one path, "
         "the attacker runs a solver-chosen operation from a 10-item repertoire in one of them; with a solver-chosen "
         "block in place (ACL any-any / exact source / wildcard range / per-protocol rules, router port down, victim interface down, victim off, router off, and router / switch / victim powered off with a multi-step shutdown during which their port-enable API is called; before or after a warm-up exchange) the victim's identifier-"
         "normalised describe_state() after 3 ticks is identical in both; the same differential on a generated firewall-with-DMZ scenario (attacker on the external LAN, victim in the internal zone or in the DMZ; blocks: external-inbound deny any / wildcard range / per-protocol, the victim zone's inbound list, the zone port down, victim interface down, victim off, firewall off with zero or multi-step shutdown); a twin shows an unblocked attack is visible.",
@@ -218,8 +217,7 @@ CLAIMS = {
         "scenario is assembled from 12 solver-chosen presence bits (users, extra folder/files, static and default route, a second ACL rule at a solver-chosen position, listen ports, fixing-duration option, simulation defaults, a node declared OFF, explicit node durations, re-declared pre-installed software, a dns-client declared with its own server differing from the host's), bandwidth and a "
         "key-order permutation of the mappings the loader iterates; the real PrimaiteGame.from_config builds it and an "
         "inventory of the built object graph (nodes, addresses, links+bandwidth, routes, ACL rules at positions, "
-        "software with options and state, users, folders/files, agents, durations) is compared with an inventory "
-        "derived independently from the dict; the NMNE capture settings in effect are the ones the scenario declares although another scenario with the opposite declaration was loaded before in the same process; the permuted scenario builds an identical simulation; the shipped scenario files with an RL agent go through the same comparison; an office-lan node set (1-47 hosts, with/without router, 3 bandwidths) is compared with its documented expansion, including link bandwidths and reachability inside the set.",
+        "software with options and state, users, folders/files, agents, durations) is compared with an inventory derived independently from the dict, right after from_config and again after the episode set-up that every reset() runs; the NMNE capture settings in effect are the ones the scenario declares although another scenario with the opposite declaration was loaded before in the same process; the permuted scenario builds an identical simulation; the shipped scenario files with an RL agent go through the same comparison; an office-lan node set (1-47 hosts, with/without router, 3 bandwidths) is compared with its documented expansion, including link bandwidths and reachability inside the set.",
         "note": "The claim starts at the parsed dict (PyYAML's C parser is outside the encoding); all inputs are finite "
         "choices - the solver enumerates the combinations (5 bits coupled per quick job, 2^11 combinations in thorough). "
         "Episode-list schedules (see C01/C04) and plugin node types are not covered. Trusted: CrossHair/z3, the reference inventory.",
